@@ -42,6 +42,9 @@ pub enum Split {
     Random(Vec<u16>),
     /// only the mandatory cuts at 65535
     Whole,
+    /// for every message that ends 65535 bytes or more into the stream: cuts such that a full 65535-byte segment ends
+    /// exactly where the message ends (a full segment usually means "more to come" — here it does not)
+    FullSegmentEndsMessage,
 }
 
 #[derive(Debug, Clone, Serialize, Deserialize)]
@@ -184,6 +187,17 @@ fn plans(split: &Split, len: usize, bounds: &[usize], bytes1_max: usize) -> Vec<
     }
     match split {
         Split::Whole => vec![vec![]],
+        Split::FullSegmentEndsMessage => {
+            let mut out: Vec<Vec<usize>> = bounds
+                .iter()
+                .filter(|b| **b >= 65535 && **b <= len)
+                .map(|b| [*b - 65535, *b].into_iter().filter(|p| *p >= 1 && *p < len).collect())
+                .collect();
+            if out.is_empty() {
+                out.push(vec![]);
+            }
+            out
+        }
         Split::AllSingles => {
             let mut pos: Vec<usize> = if len <= 64 {
                 (1..len).collect()
@@ -420,10 +434,16 @@ async fn net1_once<M: Wire>(
     let mut fin_rx = pb.subscribe_server(P_FIN);
     let ra = pa.spawn();
     let rb = pb.spawn();
+    // two phases: first only the data segments (then a marker on another protocol), and only after the receiver has
+    // produced every data message the sentinel message. A receiver that holds a complete message back until more bytes
+    // arrive is caught in the first phase; bytes that it wrongly keeps or drops are caught by the sentinel in the second.
+    let (go_tx, go_rx) = tokio::sync::oneshot::channel::<()>();
     let sender = tokio::spawn(async move {
         for seg in segs {
             tx.enqueue_chunk(seg).await.map_err(|e| e.to_string())?;
         }
+        fin_tx.enqueue_chunk(vec![0xf0]).await.map_err(|e| e.to_string())?;
+        let _ = go_rx.await;
         tx.enqueue_chunk(sentinel_bytes).await.map_err(|e| e.to_string())?;
         fin_tx.enqueue_chunk(vec![0xf1]).await.map_err(|e| e.to_string())?;
         // keep the channels alive until the run is over
@@ -432,39 +452,60 @@ async fn net1_once<M: Wire>(
     let mut buf = mux1::ChannelBuffer::new(rx);
     // messages received so far (observable even while the receiver future is pending)
     let got: std::cell::RefCell<Vec<M>> = std::cell::RefCell::new(vec![]);
-    let recv = tokio::task::unconstrained(async {
-        for _ in 0..total {
-            match buf.recv_full_msg::<M>().await {
-                Ok(m) => got.borrow_mut().push(m),
-                Err(e) => return Some(format!("{e}: {e:?}")),
-            }
-        }
-        None
-    });
-    tokio::pin!(recv);
-    let first = tokio::select! {
-        biased;
-        r = &mut recv => Some(r),
-        f = fin_rx.dequeue_chunk() => {
-            if let Err(e) = f {
-                return Err(Harness::Io(format!("FIN channel closed: {e}")));
+    let mut stop = Stop::Done;
+    let mut go_tx = Some(go_tx);
+    for (phase, want) in [(0usize, total - 1), (1, 1)] {
+        let recv = tokio::task::unconstrained(async {
+            for _ in 0..want {
+                match buf.recv_full_msg::<M>().await {
+                    Ok(m) => got.borrow_mut().push(m),
+                    Err(e) => return Some(format!("{e}: {e:?}")),
+                }
             }
             None
+        });
+        tokio::pin!(recv);
+        let first = tokio::select! {
+            biased;
+            r = &mut recv => Some(r),
+            f = fin_rx.dequeue_chunk() => {
+                if let Err(e) = f {
+                    return Err(Harness::Io(format!("FIN channel closed: {e}")));
+                }
+                None
+            }
+        };
+        let marker_pending = first.is_some();
+        let st = match first {
+            Some(None) => Stop::Done,
+            Some(Some(e)) => Stop::Error(e),
+            None => {
+                // every chunk of this phase is now in the receiver's queue: one more poll must complete it
+                let p = std::future::poll_fn(|cx| Poll::Ready(recv.as_mut().poll(cx))).await;
+                match p {
+                    Poll::Ready(None) => Stop::Done,
+                    Poll::Ready(Some(e)) => Stop::Error(e),
+                    Poll::Pending => Stop::Starved,
+                }
+            }
+        };
+        let done = matches!(st, Stop::Done);
+        stop = st;
+        if !done {
+            break;
         }
-    };
-    let stop = match first {
-        Some(None) => Stop::Done,
-        Some(Some(e)) => Stop::Error(e),
-        None => {
-            // every data chunk is now in the receiver's queue: one more poll must complete it
-            let p = std::future::poll_fn(|cx| Poll::Ready(recv.as_mut().poll(cx))).await;
-            match p {
-                Poll::Ready(None) => Stop::Done,
-                Poll::Ready(Some(e)) => Stop::Error(e),
-                Poll::Pending => Stop::Starved,
+        if phase == 0 {
+            // the receiver finished before the marker was looked at: take the marker off its queue, then let the sentinel go
+            if marker_pending {
+                if let Err(e) = fin_rx.dequeue_chunk().await {
+                    return Err(Harness::Io(format!("FIN channel closed: {e}")));
+                }
+            }
+            if let Some(g) = go_tx.take() {
+                let _ = g.send(());
             }
         }
-    };
+    }
     let out = (got.take(), stop);
     sender.abort();
     ra.abort().await;
@@ -683,6 +724,7 @@ fn split() -> impl Strategy<Value = Split> {
         2 => Just(Split::Bytes1),
         4 => prop::collection::vec(any::<u16>(), 1..24).prop_map(Split::Random),
         1 => Just(Split::Whole),
+        1 => Just(Split::FullSegmentEndsMessage),
     ]
 }
 
@@ -717,6 +759,14 @@ fn pair_family(protos: &[Proto]) -> Vec<Case> {
         for a in 0..n {
             for r in [zero(a), some(a)] {
                 out.push(Case { proto: p, msgs: vec![r], split: Split::AllSingles, big: false, server_bit: false });
+            }
+            // a message with a byte string beyond one segment, alone and followed by a small one, cut so that a full segment
+            // ends exactly where the big message ends
+            for sel0 in [0x0000u16, 0x5000, 0x9000, 0xd000] {
+                let mut big = some(a);
+                big.sel[0] = sel0;
+                out.push(Case { proto: p, msgs: vec![big.clone()], split: Split::FullSegmentEndsMessage, big: true, server_bit: false });
+                out.push(Case { proto: p, msgs: vec![big, zero(a)], split: Split::FullSegmentEndsMessage, big: true, server_bit: a % 2 == 0 });
             }
             for bb in 0..n {
                 out.push(Case { proto: p, msgs: vec![zero(a), zero(bb)], split: Split::AllSingles, big: false, server_bit: a % 2 == 1 });
